@@ -26,6 +26,7 @@ world.install_plugin_shims()
 FILE_A = '''from inline_snapshot import snapshot, outsource
 
 res = []
+owner = "crème brûlée"  # café
 
 
 def test_a():
@@ -36,6 +37,7 @@ def test_a():
 FILE_B = '''from inline_snapshot import snapshot
 
 res = []
+label = "naïve €"
 
 
 def test_b():
@@ -71,6 +73,7 @@ class _Run:
 
 
 GARBAGE = "def ((:\n"
+KINDS = ["exception", "non-zero exit", "unparsable output", "killed: negative return code, truncated output", "exit status 0, output not UTF-8 (cp1252)", "exit status 0, empty output"]
 
 
 def install_proxies(use_command):
@@ -99,6 +102,15 @@ def install_proxies(use_command):
             if Faults.kind == 3:
                 # killed by a signal: negative return code, stdout truncated at a statement boundary (still valid Python)
                 return _Run(-9, input.decode("utf-8").split("\n\n")[0].encode("utf-8") + b"\n", b"")
+            if Faults.kind == 4:
+                # exit status 0, but the output is written in another encoding (not UTF-8)
+                import black as _b
+
+                with world.NoTracing():
+                    return _Run(0, saved["format_str"](input.decode("utf-8"), mode=_b.FileMode()).encode("cp1252", "replace"))
+            if Faults.kind == 5:
+                # exit status 0 and no output at all (a command that formats the file in place instead of stdin -> stdout)
+                return _Run(0, b"")
             raise OSError("injected: cannot start the format-command")
         import black as _b
 
@@ -149,7 +161,7 @@ def remove_proxies(saved):
 def fault_case(use_command, at, kind, create, fix, vals):
     world.reset(dict(vals))
     flags = [n for n, b in (("create", create), ("fix", fix)) if b]
-    kind = 0 if kind == 0 else (1 if kind == 1 else (2 if kind == 2 else 3))
+    kind = 0 if kind == 0 else (1 if kind == 1 else (2 if kind == 2 else (3 if kind == 3 else (4 if kind == 4 else 5))))
     Faults.at = at
     Faults.kind = kind
     Faults.count = 0
@@ -199,7 +211,7 @@ def fault_case(use_command, at, kind, create, fix, vals):
             if not good:
                 ok, why = False, f"{name}: new content is not complete/correct: {world.snapshot_arg_sources(text)}"
     # a formatter failure (crash / non-zero exit) degrades to unformatted but correct code plus a reported problem
-    if fired in ("black.format_str", "format-command") and kind in (0, 1, 3) and flags and r.finish_error is None:
+    if fired in ("black.format_str", "format-command") and kind in (0, 1, 3, 5) and flags and r.finish_error is None:
         if not problems_reported:
             ok, why = False, "formatter failed but no problem was reported"
     # no test file references data that the next session would prune
@@ -215,7 +227,7 @@ def fault_case(use_command, at, kind, create, fix, vals):
         while GS._latest_global_states:
             GS.leave_snapshot_context()
     PathLog.record(f"{use_command}{fired}{kind}{flags}{sorted(k for k, v in texts.items() if v != r.texts[k])}{type(r.finish_error).__name__}", nontrivial=fired is not None,
-                   sample={"formatter": "format-command" if use_command else "black", "fault_at_call": fired, "kind": ["exception", "non-zero exit", "unparsable output", "killed: negative return code, truncated output"][kind], "flags": flags,
+                   sample={"formatter": "format-command" if use_command else "black", "fault_at_call": fired, "kind": KINDS[kind], "flags": flags,
                            "files_rewritten": sorted(k for k, v in texts.items() if v != r.texts[k]), "session_end_error": type(r.finish_error).__name__ if r.finish_error else None, "why": why})
     return ok
 
@@ -236,20 +248,20 @@ VD = "{" + ", ".join(f"{n!r}: {n}" for n in VALS) + "}"
 def conditions(tier):
     conds = []
     for use_command in (False, True):
-        for kind in ((0, 1, 2, 3) if use_command else (0,)):  # black is a library call: it raises or returns
+        for kind in ((0, 1, 2, 3, 4, 5) if use_command else (0,)):  # black is a library call: it raises or returns
             for lo, hi in (((0, 3), (4, 7), (8, 11), (12, 15), (16, 19), (20, 23), (24, 31), (32, 40)) if not use_command else ((0, 7), (8, 15), (16, 23), (24, 40))):
                 name = f"fault_{'cmd' if use_command else 'black'}_k{kind}_at{lo}_{hi}"
                 fn = mkfn(name, [("at", "int"), ("kind", "int"), ("create", "bool"), ("fix", "bool")] + [(n, "int") for n in VALS],
                           f"return fault_case({use_command}, at, kind, create, fix, {VD})", GLB, pre=[f"{lo} <= at <= {hi} and kind == {kind}"])
                 conds.append(Cond(name, fn, timeout=1200, group="faults",
-                                  bounds=f"formatter {'format-command' if use_command else 'black'}; the {lo}..{hi}-th environment call (format / read_text / rename / open-for-write, in execution order) fails with {['an exception', 'a non-zero exit status (exception for non-subprocess calls)', 'unparsable output (exception for non-formatter calls)', 'death by signal: negative return code and truncated but parsable output (exception for non-subprocess calls)'][kind]}; create/fix approved or not; 4 values symbolic"))
+                                  bounds=f"formatter {'format-command' if use_command else 'black'}; the {lo}..{hi}-th environment call (format / read_text / rename / open-for-write, in execution order) fails with {['an exception', 'a non-zero exit status (exception for non-subprocess calls)', 'unparsable output (exception for non-formatter calls)', 'death by signal: negative return code and truncated but parsable output (exception for non-subprocess calls)', 'exit status 0 but output in cp1252 instead of UTF-8 (exception for non-subprocess calls)', 'exit status 0 and no output at all (exception for non-subprocess calls)'][kind]}; create/fix approved or not; 4 values symbolic"))
     tw = mkfn("fault_twin", [("at", "int"), ("kind", "int"), ("create", "bool"), ("fix", "bool")] + [(n, "int") for n in VALS], f"return fault_case(False, at, kind, create, fix, {VD})", GLB, pre=["at == 3 and kind == 0 and create and fix"], post="not _")
     conds.append(Cond("fault_twin", tw, timeout=60, twin=True))
     return conds
 
 
 META = {
-    "bounds": {"quick": "two-file project with one outsourced external; fault at any of the first 41 environment calls of the session end (a fault-free session makes fewer), 4 kinds (exception, non-zero exit, unparsable output, killed with truncated output), 2 formatter configurations, create/fix bits and 4 values symbolic",
+    "bounds": {"quick": "two-file project with one outsourced external; fault at any of the first 41 environment calls of the session end (a fault-free session makes fewer), 6 kinds (exception, non-zero exit, unparsable output, killed with truncated output, exit 0 with mis-encoded output, exit 0 with empty output), 2 formatter configurations, create/fix bits and 4 values symbolic",
                "thorough": "same"},
     "outside": "`write()` itself failing after the file was truncated (the property lists compute/format/apply faults); process kill; more files",
     "assumptions": ["fault proxies wrap black.format_str, the format-command subprocess, Path.read_text in _rewrite_code, Path.rename in _external and open(..., 'bw'); everything else runs for real on a scratch project directory",
